@@ -10,11 +10,30 @@ Two layers:
  * P1 (`Pdb.commit`): a commit that does not return ok returns the state unchanged, so by
    the other theorems nothing of it is ever visible, logged or persisted, and removing
    all rejected commits from a history changes nothing.
-Errors raised after validation (I/O errors while claiming slots or reading a tree root)
-are outside this property's list and outside the model.
+Errors raised AFTER validation inside `commit_changes` (decision for the quantifier of C08):
+ * I/O errors (reading the root of a DereferenceTree, a full disk while a table grows) are NOT in
+   the property's list of causes ("an operation is not valid for its column, a tree root to
+   dereference does not exist, a node cannot be represented, or the database is in a
+   background-error state"): out of C08, they are C16's (a failure poisons the handle).
+ * NON-I/O causes after validation exist only through the schedule (both reproduced on the real
+   crate by harness/src/c08.rs with the yield hooks of fixes/f-c10/hook-f-c10.diff, both leave the
+   node slots claimed by the InsertTrees in front of them allocated):
+     F43   the root of a DereferenceTree is read twice (validate_change, then the assembly loop);
+           a DereferenceTree of the same root queued earlier and processed by the log worker in
+           between makes the second read fail with "No entry for tree root" - a cause FROM the
+           list, at a point where claims exist.  Finding; fix fixes/f-c10/fix-f-c10-deref-root-reread.diff.
+     F44  a background error stored between the first test of `bg_err` (f67544a) and the test in
+           `commit_raw`: Err(Background) with the claims kept.  Residual window of F23; reported.
+   In the model the state cannot change between validation and assembly (`TDb.commit` is one
+   step), so neither can be expressed there; `asmOp` keeps the error branch of the second read and
+   `C08_db_accepted_iff` shows it unreachable without interleaving.
+ * T0 order obligations (agent f-t0, Pdb/Proofs/Order.lean): `commitChanges_validate_before_claim`,
+   `commitChanges_bgerr_before_claim` tie the order validate-all / bg_err / claim of `TDb.commit`
+   to the source; `TDb.commitF1` / `TDb.commitF23` model the orders before ba82c54 / f67544a.
 -/
 import Pdb.Model.Validate
 import Pdb.Props.C01
+import Pdb.Proofs.C08Db
 
 namespace Pdb
 variable {K V : Type} [DecidableEq K]
@@ -114,3 +133,159 @@ end Pdb
 #print axioms Pdb.C08_no_trace
 #print axioms Pdb.C08_validation_matrix
 #print axioms Pdb.C08_validateTx
+
+/-! ## Database level: every column kind, claims, counters, the stored background error -/
+
+namespace Pdb
+open MultiTree
+
+section Db
+variable {K D : Type} [DecidableEq K]
+
+/-- A `commit_changes` call that does not return ok returns the database EQUAL to what it was:
+    every column's tables, free-entry stack, fill mark (claimed slots), `to_dereference`
+    counters, queue / commit overlay, the commit id counter and the error flag.  For every state
+    and every transaction over columns of every kind, operations on non-existent columns
+    included. -/
+theorem C08_db_rejected_no_trace (db : TDb K D) (tx : List (Nat × DbOp K D))
+    (h : (db.commit tx).2 ≠ .ok) : (db.commit tx).1 = db :=
+  TDb.commit_err db tx h
+
+/-- A transaction with an operation that `validate_change` refuses for its column (or that names
+    a column that does not exist) is rejected and leaves no trace, wherever the operation sits. -/
+theorem C08_db_invalid_rejected (db : TDb K D) (tx : List (Nat × DbOp K D)) (cop : Nat × DbOp K D)
+    (hm : cop ∈ tx)
+    (hinv : Validate.validateAt (db.cols.map Col.opts) cop.1 (db.kindAt cop.1 cop.2) ≠ .ok) :
+    (db.commit tx).2 ≠ .ok ∧ (db.commit tx).1 = db :=
+  TDb.commit_invalid db tx cop hm hinv
+
+/-- While a background error is stored every commit is refused without a trace; a valid
+    transaction is refused with `Error::Background`. -/
+theorem C08_db_bgerr_refused (db : TDb K D) (tx : List (Nat × DbOp K D)) (hb : db.bgErr = true) :
+    ((db.commit tx).2 ≠ .ok ∧ (db.commit tx).1 = db) ∧
+      (db.validate tx = .ok → (db.commit tx).2 = .err .background) := by
+  have h2 : (db.commit tx).2 ≠ .ok := by
+    intro h
+    have := ((TDb.commit_ok_iff db tx).mp h).2
+    rw [hb] at this
+    cases this
+  refine ⟨⟨h2, TDb.commit_err db tx h2⟩, ?_⟩
+  intro hv
+  rw [TDb.commit_bgerr_eq db tx hv hb]
+
+/-- A commit is accepted iff every operation passes `validate_change` and no background error is
+    stored: after validation the assembly loop (claims, counters) cannot fail. -/
+theorem C08_db_accepted_iff (db : TDb K D) (tx : List (Nat × DbOp K D)) :
+    (db.commit tx).2 = .ok ↔ (db.validate tx = .ok ∧ db.bgErr = false) :=
+  TDb.commit_ok_iff db tx
+
+/-- Nothing of a rejected transaction shows later: in every history of commits, pipeline steps
+    and background failures, deleting every commit that is rejected in the state it meets yields
+    exactly the same final state. -/
+theorem C08_db_no_trace_history (db : TDb K D) (as : List (DbAction K D)) :
+    runDb db as = runDb db (dropRejected db as) :=
+  runDb_dropRejected db as
+
+/-- Per step: stepping over a commit that is rejected is the identity. -/
+theorem C08_db_rejected_step (db : TDb K D) (tx : List (Nat × DbOp K D))
+    (h : isRejected db tx = true) : stepDb db (.commit tx) = db :=
+  stepDb_rejected db (.commit tx) h
+
+/-- A database with one multitree column and no stored error commits a tree-only transaction
+    exactly as the column-level `TState.commit` (the object of the C10 theorems) does. -/
+theorem C08_db_single_column (s : TState K D) (n : Nat) (ops : List (MultiTree.Op K D)) :
+    (⟨[.tree s], n, false⟩ : TDb K D).commit (ops.map (fun op => (0, .tree op))) =
+      (⟨[.tree (s.commit ops).1], if resOf (s.commit ops).2 = .ok then n + 1 else n, false⟩,
+        resOf (s.commit ops).2) :=
+  TDb.commit_single s n ops
+
+end Db
+
+section Witness
+
+/-- one plain multitree column -/
+private def colP : Col Nat Nat := .tree (TState.init .plain)
+/-- InsertTree of a root with one new leaf -/
+private def insOp : DbOp Nat Nat := .tree (.insert 1 ⟨7, .cons (.new 8 .nil) .nil⟩)
+private def dbBg : TDb Nat Nat := ⟨[colP], 0, true⟩
+private def dbOk : TDb Nat Nat := ⟨[colP], 0, false⟩
+private def txIns : List (Nat × DbOp Nat Nat) := [(0, insOp)]
+private def txInsRef : List (Nat × DbOp Nat Nat) := [(0, insOp), (0, .tree (.reference 1))]
+
+/-- Defect F23 (order before f67544a: the background error is tested in `commit_raw`, after the
+    assembly loop): the refused InsertTree keeps its claimed node slot (fill mark 0 -> 1). -/
+theorem C08_db_F23_order_leaves_trace :
+    ∃ (db : TDb Nat Nat) (tx : List (Nat × DbOp Nat Nat)),
+      (db.commitF23 tx).2 = .err .background ∧ (db.commitF23 tx).1 ≠ db :=
+  ⟨dbBg, txIns, by decide, fun h => absurd (congrArg TDb.fillMarks h) (by decide)⟩
+
+/-- Defect F1 (order before ba82c54 / d908c4b: validation inside the assembly loop): InsertTree
+    followed by an invalid ReferenceTree (no ref_counted) is rejected, the claim of the InsertTree
+    stays. -/
+theorem C08_db_F1_order_leaves_trace :
+    ∃ (db : TDb Nat Nat) (tx : List (Nat × DbOp Nat Nat)),
+      (db.commitF1 tx).2 = .err .invalidInput ∧ (db.commitF1 tx).1 ≠ db :=
+  ⟨dbOk, txInsRef, by decide, fun h => absurd (congrArg TDb.fillMarks h) (by decide)⟩
+
+-- the claimed slot is the trace
+example : (dbBg.commitF23 txIns).1.fillMarks = [1] ∧ dbBg.fillMarks = [0] := by decide
+example : (dbOk.commitF1 txInsRef).1.fillMarks = [1] ∧ dbOk.fillMarks = [0] := by decide
+
+/-- the FIXED order on the same two inputs: same error, state unchanged -/
+example : (dbBg.commit txIns).2 = .err .background ∧ (dbBg.commit txIns).1 = dbBg :=
+  ⟨by decide, C08_db_rejected_no_trace _ _ (by decide)⟩
+example : (dbOk.commit txInsRef).2 = .err .invalidInput ∧ (dbOk.commit txInsRef).1 = dbOk :=
+  ⟨by decide, C08_db_rejected_no_trace _ _ (by decide)⟩
+example : (dbBg.commit txIns).1.fillMarks = [0] ∧ (dbOk.commit txInsRef).1.fillMarks = [0] := by
+  decide
+
+/-! non-vacuity: a tree column (ref-counted roots) AND a key-value column -/
+
+private def db2 : TDb Nat Nat := ⟨[.tree (TState.init .rcRoots), .kv ⟨.empty, []⟩], 0, false⟩
+/-- valid: InsertTree on column 0, Set on column 1 -/
+private def txGood : List (Nat × DbOp Nat Nat) := [(0, insOp), (1, .set 3 4)]
+/-- an invalid operation in the middle: Reference on a key-value column without ref_counted -/
+private def txBad : List (Nat × DbOp Nat Nat) := [(0, insOp), (1, .ref 5), (1, .set 3 4)]
+/-- an operation on a column that does not exist, last -/
+private def txNoCol : List (Nat × DbOp Nat Nat) := [(0, insOp), (1, .set 3 4), (2, .set 1 1)]
+/-- DereferenceTree of a root that does not exist, between valid operations -/
+private def txNoRoot : List (Nat × DbOp Nat Nat) :=
+  [(1, .set 3 4), (0, .tree (.dereference 9)), (0, insOp)]
+
+-- hypotheses of `C08_db_invalid_rejected` / `C08_db_rejected_no_trace` are satisfiable
+example : (1, DbOp.ref 5) ∈ txBad ∧
+    Validate.validateAt (db2.cols.map Col.opts) 1 (db2.kindAt 1 (.ref 5)) ≠ .ok :=
+  ⟨.tail _ (.head _), by decide⟩
+example : (db2.commit txBad).2 = .err .invalidInput ∧ (db2.commit txNoCol).2 = .err .invalidInput ∧
+    (db2.commit txNoRoot).2 = .err .invalidConfiguration := by decide
+example : (db2.commit txBad).1 = db2 := C08_db_rejected_no_trace _ _ (by decide)
+-- an accepted commit does leave a trace: claimed slot, id counter
+example : (db2.commit txGood).2 = .ok ∧ (db2.commit txGood).1.fillMarks = [1, 0] ∧
+    (db2.commit txGood).1.nextId = 1 := by decide
+-- the same valid transaction with a stored error
+example : ({ db2 with bgErr := true }.commit txGood).2 = .err .background := by decide
+
+private def hist : List (DbAction Nat Nat) :=
+  [.commit txGood, .commit txBad, .process, .commit txNoRoot, .fail, .commit txGood, .commit txNoCol]
+-- three of the seven actions survive... and the valid commit after `fail` is rejected too
+example : (dropRejected db2 hist).length = 3 ∧ (runDb db2 hist).nextId = 1 ∧
+    (runDb db2 hist).fillMarks = [1, 0] ∧ (runDb db2 hist).bgErr = true := by decide
+-- single column form
+example : ((⟨[.tree (TState.init .plain)], 5, false⟩ : TDb Nat Nat).commit
+    ([MultiTree.Op.insert 1 ⟨7, .cons (.new 8 .nil) .nil⟩].map (fun op => (0, .tree op)))).2 = .ok ∧
+    ((TState.init .plain : TState Nat Nat).commit [.insert 1 ⟨7, .cons (.new 8 .nil) .nil⟩]).1.heap.next = 1 := by
+  decide
+
+end Witness
+
+end Pdb
+
+#print axioms Pdb.C08_db_rejected_no_trace
+#print axioms Pdb.C08_db_invalid_rejected
+#print axioms Pdb.C08_db_bgerr_refused
+#print axioms Pdb.C08_db_accepted_iff
+#print axioms Pdb.C08_db_no_trace_history
+#print axioms Pdb.C08_db_rejected_step
+#print axioms Pdb.C08_db_single_column
+#print axioms Pdb.C08_db_F23_order_leaves_trace
+#print axioms Pdb.C08_db_F1_order_leaves_trace
